@@ -129,6 +129,15 @@ func genBody(seed uint64, tier string) *body {
 	b.Cfg.Meta = fmt.Sprintf("meta-%x", r.Uint64()&0xffff)
 	if r.Intn(8) == 0 {
 		b.Cfg.Meta = ""
+	} else {
+		// the metadata record's framed size depends on the length of its crc
+		// varint exactly when len(metadata) = 7 mod 8: then the header of a new
+		// segment can be 8 bytes shorter than that of an earlier one
+		ml := []int{3, 7, 7, 7, 8, 9, 15, 15, 20}[r.Intn(9)]
+		for len(b.Cfg.Meta) < ml {
+			b.Cfg.Meta += "-m"
+		}
+		b.Cfg.Meta = b.Cfg.Meta[:ml]
 	}
 	b.Cfg.Salt = r.Uint64()
 	b.Cfg.PTake = []int{60, 120, 250, 500}[r.Intn(4)]
